@@ -7,7 +7,7 @@
    NOT_CONTROLLER; [requests log] are the requests sent, in order; [spaced false log] says that any two
    consecutive requests have a metadata refresh between them. *)
 From Coq Require Import List ZArith Permutation.
-From SV Require Import Gen.DecTypes Gen.DecC19 C19.Model C19.ProofsRetry C19.ProofsRoute C19.ProofsTie.
+From SV Require Import Gen.DecTypes Gen.DecTypes2 Gen.DecC19 C19.Model C19.ProofsRetry C19.ProofsRoute C19.ProofsTie.
 Import ListNotations.
 Open Scope Z_scope.
 
@@ -165,3 +165,36 @@ Theorem c19_tie_retry_on_error : forall c s, c_flav c = fixed ->
   og (snd (fst (run c s))).
 Proof. exact tie_retry_on_error. Qed.
 Print Assumptions c19_tie_retry_on_error.
+
+(* Second wave of regenerated definitions. The closure handed to retryOnError by CreateTopic / DeleteTopic /
+   CreatePartitions (missing-entry test, NOT_CONTROLLER test + refreshController, the error returned) is what the
+   model's attempt computes from its script ... *)
+Theorem c19_tie_attempt : forall c s, c_op c <> OpAlter ->
+  let s1 := resolve c s in
+  let a := answer_of (hd [] (answers s1)) (ctrl s1) in
+  gen_attempt (c_op c) (controller_gerr c s) (request_gerr c a) (answer_code a) (answer_present a) =
+  ((if attempt_refreshes c s then [AD_refresh_controller] else []), og (snd (fst (attempt c s)))).
+Proof. exact tie_attempt. Qed.
+Print Assumptions c19_tie_attempt.
+
+(* ... and the two loops of DescribeConsumerGroups: the coordinator of every group is looked up in order, the
+   first lookup error aborts the operation with that error; then one call per coordinator, the first failure
+   aborts with it, otherwise the answers are concatenated — as in the model's find_all / describe_plan. *)
+Theorem c19_tie_describe_lookup : forall e (name : Z -> String.string) gs,
+  let r := describe_groups_lookup (coordinator_script e gs) (map name gs) in
+  match fst (find_all e gs []) with
+  | Some c => snd r = ExReturn ([], EK c) /\ fst (group_op GDescribe e gs []) = RErr (EKafka WKError c)
+  | None => snd r = ExFall /\ snd (fst r) = map (fun g => AD_group_to_coordinator (name g)) gs
+  end.
+Proof. exact tie_describe_lookup. Qed.
+Print Assumptions c19_tie_describe_lookup.
+
+Theorem c19_tie_describe_collect : forall e enc gs,
+  let plan := group_by (coord_key e) gs in
+  let r := describe_groups_collect [] (map (broker_response e enc) plan) (map (fun bg => (fst bg, 0)) plan) in
+  match fst (describe_plan e plan) with
+  | RItems l => r = (map enc l, [], ExFall)
+  | _ => snd r = ExReturn ([], to_gerr ETransport)
+  end.
+Proof. exact tie_describe_collect. Qed.
+Print Assumptions c19_tie_describe_collect.
